@@ -50,7 +50,7 @@ def _alarm(signum, frame):
 class watch:
     """`with watch(20): real call` — Hang when the program does not come back."""
 
-    def __init__(self, seconds=20):
+    def __init__(self, seconds=30):
         self.seconds = seconds
 
     def __enter__(self):
@@ -816,8 +816,9 @@ def patterns(m):
 
 def gen_cases(tier, rng):
     """Quick: 3..5 ensembles complete (all loadable reach vectors; 0/1 weights and the integer-weight
-    kinds), 6 ensembles with 0/1 weights (start-up with 3..5 workers on a seeded sample of the reach
-    vectors).  Thorough: 6 ensembles complete for 0/1 weights."""
+    kinds; 4 workers on 5 ensembles and the two-worker steps on 5 ensembles with 0/1 weights only),
+    6 ensembles with 0/1 weights (start-up with 3..5 workers on a seeded sample of the reach vectors).
+    Thorough: 6 ensembles complete for 0/1 weights, more kinds, both jobs drain on 5 ensembles."""
     cases = []
     thorough = tier != "quick"
 
@@ -837,10 +838,9 @@ def gen_cases(tier, rng):
                     if kind in ("01", "dec") or thorough:
                         add(n_ens, 2, kind, reach, 2)
                 elif kind == "01" or (thorough and kind == "dec"):
-                    add(n_ens, 2, kind, reach, 2 if thorough else 1)
+                    add(n_ens, 2, kind, reach, 2 if (thorough and kind == "01") else 1)
     n_ens, m = 6, 5
     pats = patterns(m)
-    full = [m] * m
     for reach in pats:
         add(n_ens, 2, "01", reach, 0)
         add(n_ens, 1, "01", reach, 1)
@@ -851,23 +851,18 @@ def gen_cases(tier, rng):
     if thorough:
         for reach in pats:
             add(n_ens, 2, "dec", reach, 0)
-            add(n_ens, 3, "dec", reach, 0)
             add(n_ens, 1, "dec", reach, 1)
     return cases
 
 
-_COST = {(3, 0): 1, (3, 1): 2, (3, 2): 10, (4, 0): 2, (4, 1): 4, (4, 2): 45, (5, 1): 8, (5, 2): 45,
-         (6, 1): 16}
+# measured seconds per case (loaded machine), by (ensembles, workers, steps); only used to balance the chunks
+_COST = {(4, 2, 2): 3.2, (5, 1, 1): 0.5, (5, 2, 1): 3.2, (5, 2, 2): 15, (6, 1, 1): 0.9, (6, 2, 0): 1.15, (6, 3, 0): 11,
+         (6, 4, 0): 18, (6, 5, 0): 16, (5, 3, 0): 1.4, (5, 4, 0): 1.8, (5, 2, 0): 0.5, (3, 2, 2): 0.6}
 
 
 def cost(case):
-    """rough relative cost, only used to balance the chunks."""
-    n, w, st = case["n_ens"], case["workers"], case["steps"]
-    if st:
-        c = _COST.get((n, st), 45)
-    else:
-        c = {(5, 2): 3, (5, 3): 8, (5, 4): 25, (6, 2): 3, (6, 3): 55, (6, 4): 65, (6, 5): 120}.get((n, w), 2)
-    dens = sum(case["reach"]) / float((n - 1) ** 2)
+    c = _COST.get((case["n_ens"], case["workers"], case["steps"]), 0.3)
+    dens = sum(case["reach"]) / float((case["n_ens"] - 1) ** 2)
     return c * (0.3 + dens ** 2)
 
 
